@@ -433,3 +433,41 @@ Proof.
     rewrite IH, andb_true_r. now apply Qle_bool_iff. }
   now rewrite F.
 Qed.
+
+(** ---- Monte Carlo propagation of k * a + c from the value and uncertainty in use ------------------------------ *)
+Lemma t_mean_map_ext {A} (f g : A -> Q) l : (forall x, f x == g x) -> t_mean (map f l) == t_mean (map g l).
+Proof.
+  intros H. unfold t_mean.
+  assert (L : qlen (map f l) = qlen (map g l)) by (unfold qlen; now rewrite !map_length).
+  rewrite L. apply Qdiv_comp; [now apply qsum_map_ext|reflexivity].
+Qed.
+
+Lemma t_var_map_ext {A} (f g : A -> Q) l : (forall x, f x == g x) -> t_var (map f l) == t_var (map g l).
+Proof.
+  intros H. unfold t_var.
+  assert (L : qlen (map f l) = qlen (map g l)) by (unfold qlen; now rewrite !map_length).
+  rewrite L. apply Qdiv_comp; [|reflexivity].
+  unfold dev2. rewrite !map_map. apply qsum_map_ext. intros x.
+  unfold sq. now rewrite (t_mean_map_ext f g l H), (H x).
+Qed.
+
+Lemma monte_carlo_lemma xs ss ops k c e offs :
+  let r := sel_run ops (rmv_new xs ss) in
+  e * e == r_err_sq r -> (2 <= length offs)%nat -> t_mean offs == 0 ->
+  let samples := map (mc_lin k c (r_value r) e) offs in
+  t_mean samples == k * spec_value xs ss ops + c /\
+  t_var samples == k * k * spec_err_sq xs ss ops * t_var offs.
+Proof.
+  cbv zeta. intros He Hn Hm. destruct (selectors_lemma xs ss ops) as (E1 & E2 & _).
+  set (r := sel_run ops (rmv_new xs ss)) in *.
+  assert (P : forall o, mc_lin k c (r_value r) e o == (k * e) * o + (k * r_value r + c))
+    by (intros o; unfold mc_lin; ring).
+  pose proof (qlen_nonzero offs Hn) as N.
+  split.
+  - rewrite (t_mean_map_ext _ _ offs P).
+    change (map (fun o => k * e * o + (k * r_value r + c)) offs) with (affine (k * e) (k * r_value r + c) offs).
+    rewrite (mean_affine _ _ offs N), Hm, E1. ring.
+  - rewrite (t_var_map_ext _ _ offs P).
+    change (map (fun o => k * e * o + (k * r_value r + c)) offs) with (affine (k * e) (k * r_value r + c) offs).
+    rewrite (var_affine _ _ offs N), <- E2, <- He. ring.
+Qed.
